@@ -73,7 +73,7 @@ func build(c *lp.Ctx, cs *Case) bool {
 
 // genC01: Get / GetID on every retained key, fresh and reloaded.
 func genC01(c *lp.Ctx) {
-	n := c.Pick(400, 4000)
+	n := c.Pick(400, 1200)
 	size := c.Pick(250, 1500)
 	for it := 0; it < n; it++ {
 		ks := gen.Any(c.Rng, size)
